@@ -373,6 +373,63 @@ pub fn decode(code: &[u8]) -> Option<(Insn, usize)> {
     Some((i, c.n as usize))
 }
 
+/// Does opcode `op` of opcode map `map` (0 = one-byte, 1 = 0F, 3 = 0F 3A) have a ModRM byte?
+/// (SDM vol. 2 appendix A, tables A-2..A-5; only the opcodes this decoder knows matter.)
+fn has_modrm(map: u8, op: u8) -> bool {
+    if map == 0 {
+        if op < 0x40 {
+            return op & 7 < 4;
+        }
+        return match op {
+            0x63 | 0x80 | 0x81 | 0x83 | 0x84..=0x8B | 0x8D | 0xC0 | 0xC1 | 0xC6 | 0xC7 | 0xD0..=0xD3 | 0xF6 | 0xF7 | 0xFE | 0xFF => true,
+            _ => false,
+        };
+    }
+    if map == 1 {
+        return match op {
+            0x80..=0x8F => false, // jcc rel32
+            _ => true,            // every other 0F opcode decoded below has ModRM
+        };
+    }
+    true
+}
+
+/// immediate / displacement bytes after ModRM: 0 none, 1 one byte, 2 imm16/imm32 by operand size
+/// (66 -> 2 bytes, else 4 bytes, sign-extended for 64-bit), 3 four bytes, 4 eight bytes
+fn imm_kind(map: u8, op: u8, ext: u8, w: bool) -> u8 {
+    if map == 0 {
+        if op < 0x40 {
+            return match op & 7 {
+                4 => 1,
+                5 => 2,
+                _ => 0,
+            };
+        }
+        return match op {
+            0x70..=0x7F | 0x80 | 0x83 | 0xA8 | 0xB0..=0xB7 | 0xC0 | 0xC1 | 0xC6 | 0xEB => 1,
+            0x81 | 0xA9 | 0xC7 => 2,
+            0xB8..=0xBF => {
+                if w { 4 } else { 2 }
+            }
+            0xE8 | 0xE9 => 3,
+            0xF6 => {
+                if ext == 0 { 1 } else { 0 }
+            }
+            0xF7 => {
+                if ext == 0 { 2 } else { 0 }
+            }
+            _ => 0,
+        };
+    }
+    if map == 1 {
+        return match op {
+            0x80..=0x8F => 3,
+            _ => 0,
+        };
+    }
+    1 // 0F 3A: every opcode has an imm8
+}
+
 fn decode_insn(c: &mut Cur) -> Insn {
     let mut x = Ctx { p66: false, rep: 0, lock: false, rexp: false, w: false, r: false, x: false, b: false, vex: false, l: false, v: 0, pp: 0, sse_bad: false };
     let mut b = c.u8();
@@ -380,22 +437,19 @@ fn decode_insn(c: &mut Cur) -> Insn {
     let mut npfx = 0u8;
     if is_legacy_prefix(b) {
         apply_prefix(&mut x, b);
-        npfx += 1;
+        npfx = 1;
         b = c.u8();
     }
     if is_legacy_prefix(b) {
         apply_prefix(&mut x, b);
-        npfx += 1;
         b = c.u8();
     }
     if is_legacy_prefix(b) {
         apply_prefix(&mut x, b);
-        npfx += 1;
         b = c.u8();
     }
     if is_legacy_prefix(b) {
         apply_prefix(&mut x, b);
-        npfx += 1;
         b = c.u8();
     }
     let mut map = 0u8;
@@ -406,17 +460,15 @@ fn decode_insn(c: &mut Cur) -> Insn {
             return UNKNOWN;
         }
         x.vex = true;
+        let p1 = c.u8();
+        x.r = p1 & 0x80 == 0;
         if b == 0xC5 {
-            let p1 = c.u8();
-            x.r = p1 & 0x80 == 0;
             x.v = (!(p1 >> 3)) & 15;
             x.l = p1 & 4 != 0;
             x.pp = p1 & 3;
             map = 1;
         } else {
-            let p1 = c.u8();
             let p2 = c.u8();
-            x.r = p1 & 0x80 == 0;
             x.x = p1 & 0x40 == 0;
             x.b = p1 & 0x20 == 0;
             let mm = p1 & 0x1F;
@@ -442,11 +494,8 @@ fn decode_insn(c: &mut Cur) -> Insn {
         }
         if b == 0x0F {
             let b2 = c.u8();
-            if b2 == 0x38 {
-                map = 2;
-                op = c.u8();
-            } else if b2 == 0x3A {
-                map = 3;
+            if b2 == 0x38 || b2 == 0x3A {
+                map = if b2 == 0x38 { 2 } else { 3 };
                 op = c.u8();
             } else {
                 map = 1;
@@ -466,14 +515,33 @@ fn decode_insn(c: &mut Cur) -> Insn {
         };
         x.sse_bad = x.rep != 0 && x.p66;
     }
-    let mut i = if map == 0 {
-        decode_map0(c, &x, op)
-    } else if map == 1 {
-        decode_map1(c, &x, op)
-    } else if map == 3 {
-        decode_map3(c, &x, op)
+    if map == 2 {
+        return UNKNOWN; // no 0F 38 instruction is offered
+    }
+    // ModRM / SIB / displacement, then the immediate: read once, used by whichever instruction it is
+    let m = if has_modrm(map, op) { modrm(c, &x) } else { NO_MODRM };
+    let osz: u8 = if x.w { 64 } else if x.p66 { 16 } else { 32 };
+    let imm: i64 = match imm_kind(map, op, m.reg & 7, x.w) {
+        1 => c.i8(),
+        2 => c.imm_z(osz),
+        3 => c.i32() as i64,
+        4 => c.i64(),
+        _ => 0,
+    };
+    // SSE / AVX opcodes of the 0F map: the SIMD prefix selects the instruction
+    let is_sse = map == 1
+        && match op {
+            0x10 | 0x11 | 0x28 | 0x29 | 0x2A | 0x2C | 0x2D | 0x2E | 0x2F | 0x51 | 0x54..=0x5A | 0x5C..=0x5F | 0x6E | 0x7E | 0xD6 | 0xEF => true,
+            _ => false,
+        };
+    let mut i = if map == 3 {
+        decode_map3(&x, op, &m, imm)
+    } else if is_sse {
+        sse_build(&x, sse_table(&x, op, m.is_reg), &m, Operand::None)
     } else {
-        UNKNOWN
+        // integer instructions (no VEX form)
+        let f = if map == 0 { form_map0(&x, op, m.reg & 7, m.is_reg) } else { form_map1(&x, op, &m) };
+        int_build(&x, f, op, &m, imm)
     };
     if i.mn == Mn::Unknown {
         return UNKNOWN;
@@ -497,210 +565,225 @@ fn decode_insn(c: &mut Cur) -> Insn {
     i
 }
 
-/// integer instruction that does not define the 66 prefix: refuse it
-fn no66(x: &Ctx, i: Insn) -> Insn {
-    if x.p66 { UNKNOWN } else { i }
+const NO_MODRM: ModRm = ModRm { md: 0, reg: 0, is_reg: false, rm: 0, base: -1, index: -1, scale: 1, disp: 0, rip: false };
+
+// Integer instructions are decoded in two steps so that the (large) Insn value is built exactly once:
+// the opcode selects a small `Form` (mnemonic, sizes, operand kinds), `int_build` turns it into operands.
+
+// operand kinds of a Form
+const K_NONE: u8 = 0;
+const K_RM: u8 = 1; // ModRM.rm: general register or memory of the given size
+const K_REG: u8 = 2; // ModRM.reg: general register of the given size
+const K_ACC: u8 = 3; // al / ax / eax / rax
+const K_OPREG: u8 = 4; // register in the low 3 opcode bits (+ REX.B)
+const K_IMM: u8 = 5; // the immediate, sign-extended
+const K_IMMU8: u8 = 6; // the immediate byte, zero-extended (shift count)
+const K_ONE: u8 = 7; // constant 1 (D0/D1 shifts)
+const K_CL: u8 = 8; // %cl
+const K_REL: u8 = 9; // branch displacement
+const K_MEM: u8 = 10; // ModRM.rm memory only, given access size (lea: 0)
+
+#[derive(Copy, Clone)]
+struct Form {
+    mn: Mn,
+    osz: u8, // Insn::opsize
+    ka: u8,
+    sa: u8,
+    kb: u8,
+    sb: u8,
+    cc: u8,
+    no66: bool,     // the 66 prefix is not defined for this form
+    rep_used: bool, // F3 is part of the opcode
 }
-/// keep an F2/F3 prefix that is not part of the opcode visible
-fn with_rep(x: &Ctx, mut i: Insn) -> Insn {
-    i.rep = x.rep;
-    i
+const F_UNKNOWN: Form = Form { mn: Mn::Unknown, osz: 0, ka: 0, sa: 0, kb: 0, sb: 0, cc: 0, no66: false, rep_used: false };
+const fn f0(mn: Mn, osz: u8) -> Form {
+    Form { mn, osz, ka: K_NONE, sa: 0, kb: K_NONE, sb: 0, cc: 0, no66: false, rep_used: false }
+}
+const fn f1(mn: Mn, osz: u8, ka: u8, sa: u8) -> Form {
+    Form { mn, osz, ka, sa, kb: K_NONE, sb: 0, cc: 0, no66: false, rep_used: false }
+}
+const fn f2(mn: Mn, osz: u8, ka: u8, sa: u8, kb: u8, sb: u8) -> Form {
+    Form { mn, osz, ka, sa, kb, sb, cc: 0, no66: false, rep_used: false }
+}
+impl Form {
+    const fn cc(mut self, cc: u8) -> Form {
+        self.cc = cc;
+        self
+    }
+    const fn no66(mut self) -> Form {
+        self.no66 = true;
+        self
+    }
+    /// byte-sized forms do not define the 66 prefix
+    const fn no66_if_byte(mut self) -> Form {
+        self.no66 = self.osz == 8;
+        self
+    }
 }
 
-fn decode_map0(c: &mut Cur, x: &Ctx, op: u8) -> Insn {
-    let osz: u8 = if x.w { 64 } else if x.p66 { 16 } else { 32 };
-    let o16 = osz as u16;
-    if op < 0x40 {
-        let k = op & 7;
-        if k >= 6 {
-            return UNKNOWN;
-        }
-        let mn = alu_mn(op >> 3);
-        if k < 4 {
-            let sz = if k & 1 == 0 { 8 } else { osz };
-            let m = modrm(c, x);
-            let rmo = rm_g(&m, sz, x);
-            let ro = g(m.reg, sz, x.rexp);
-            let i = if k < 2 { Insn::op2(mn, sz as u16, rmo, ro) } else { Insn::op2(mn, sz as u16, ro, rmo) };
-            return with_rep(x, if sz == 8 { no66(x, i) } else { i });
-        }
-        if k == 4 {
-            let v = c.i8();
-            return with_rep(x, no66(x, Insn::op2(mn, 8, gpr(0, 8), Operand::Imm(v))));
-        }
-        let v = c.imm_z(osz);
-        return with_rep(x, Insn::op2(mn, o16, gpr(0, osz), Operand::Imm(v)));
+fn int_operand(k: u8, s: u8, x: &Ctx, op: u8, m: &ModRm, imm: i64) -> Operand {
+    match k {
+        K_RM => rm_g(m, s, x),
+        K_REG => g(m.reg, s, x.rexp),
+        K_ACC => gpr(0, s),
+        K_OPREG => g((op & 7) | ((x.b as u8) << 3), s, x.rexp),
+        K_IMM => Operand::Imm(imm),
+        K_IMMU8 => Operand::Imm(imm as u8 as i64),
+        K_ONE => Operand::Imm(1),
+        K_CL => CL,
+        K_REL => Operand::Rel(imm as i32),
+        K_MEM => rm_mem(m, s),
+        _ => Operand::None,
     }
-    let bbit = (x.b as u8) << 3;
-    let i = match op {
-        0x50..=0x57 => {
+}
+
+fn int_build(x: &Ctx, f: Form, op: u8, m: &ModRm, imm: i64) -> Insn {
+    if f.mn == Mn::Unknown || (f.no66 && x.p66) || x.vex {
+        return UNKNOWN;
+    }
+    let a = int_operand(f.ka, f.sa, x, op, m, imm);
+    let b = int_operand(f.kb, f.sb, x, op, m, imm);
+    let nops = if f.ka == K_NONE { 0 } else if f.kb == K_NONE { 1 } else { 2 };
+    Insn {
+        mn: f.mn,
+        opsize: f.osz as u16,
+        ops: [a, b, Operand::None, Operand::None],
+        nops,
+        lock: false,
+        // an F2/F3 prefix that is not part of the opcode stays visible
+        rep: if f.rep_used { 0 } else { x.rep },
+        cc: f.cc,
+        vex: false,
+    }
+}
+
+/// one-byte opcode map (`ext` = ModRM.reg & 7 for group opcodes, `rm_is_reg` = ModRM.mod == 3)
+fn form_map0(x: &Ctx, op: u8, ext: u8, rm_is_reg: bool) -> Form {
+    let osz: u8 = if x.w { 64 } else if x.p66 { 16 } else { 32 };
+    // size of the byte / full-size opcode pairs (even opcode = byte form)
+    let sz: u8 = if op & 1 == 0 { 8 } else { osz };
+    if op < 0x40 {
+        let mn = alu_mn(op >> 3);
+        return match op & 7 {
+            0 | 1 => f2(mn, sz, K_RM, sz, K_REG, sz).no66_if_byte(),
+            2 | 3 => f2(mn, sz, K_REG, sz, K_RM, sz).no66_if_byte(),
+            4 | 5 => f2(mn, sz, K_ACC, sz, K_IMM, 0).no66_if_byte(),
+            _ => F_UNKNOWN,
+        };
+    }
+    match op {
+        0x50..=0x5F => {
             // default operand size 64 in 64-bit mode; 66 selects 16 unless REX.W is set
-            let sz = if x.p66 && !x.w { 16 } else { 64 };
-            Insn::op1(Mn::Push, sz as u16, gpr((op & 7) | bbit, sz))
+            let psz = if x.p66 && !x.w { 16 } else { 64 };
+            f1(if op < 0x58 { Mn::Push } else { Mn::Pop }, psz, K_OPREG, psz)
         }
-        0x58..=0x5F => {
-            let sz = if x.p66 && !x.w { 16 } else { 64 };
-            Insn::op1(Mn::Pop, sz as u16, gpr((op & 7) | bbit, sz))
+        0x63 => f2(Mn::Movsxd, osz, K_REG, osz, K_RM, 32),
+        0x70..=0x7F => f1(Mn::Jcc, 0, K_REL, 0).cc(op & 15).no66(),
+        // 80: r/m8, imm8; 81: r/m, imm16/32; 83: r/m, imm8 sign-extended
+        0x80 => f2(alu_mn(ext), 8, K_RM, 8, K_IMM, 0).no66(),
+        0x81 | 0x83 => f2(alu_mn(ext), osz, K_RM, osz, K_IMM, 0),
+        0x84..=0x89 => {
+            let mn = if op < 0x86 { Mn::Test } else if op < 0x88 { Mn::Xchg } else { Mn::Mov };
+            f2(mn, sz, K_RM, sz, K_REG, sz).no66_if_byte()
         }
-        0x63 => {
-            let m = modrm(c, x);
-            Insn::op2(Mn::Movsxd, o16, gpr(m.reg, osz), rm_g(&m, 32, x))
-        }
-        0x70..=0x7F => {
-            let d = c.i8() as i32;
-            no66(x, Insn::op1(Mn::Jcc, 0, Operand::Rel(d)).with_cc(op & 15))
-        }
-        0x80 => {
-            let m = modrm(c, x);
-            let v = c.i8();
-            no66(x, Insn::op2(alu_mn(m.reg), 8, rm_g(&m, 8, x), Operand::Imm(v)))
-        }
-        0x81 => {
-            let m = modrm(c, x);
-            let v = c.imm_z(osz);
-            Insn::op2(alu_mn(m.reg), o16, rm_g(&m, osz, x), Operand::Imm(v))
-        }
-        0x83 => {
-            let m = modrm(c, x);
-            let v = c.i8();
-            Insn::op2(alu_mn(m.reg), o16, rm_g(&m, osz, x), Operand::Imm(v))
-        }
-        0x84 | 0x86 | 0x88 => {
-            let m = modrm(c, x);
-            let mn = if op == 0x84 { Mn::Test } else if op == 0x86 { Mn::Xchg } else { Mn::Mov };
-            no66(x, Insn::op2(mn, 8, rm_g(&m, 8, x), g(m.reg, 8, x.rexp)))
-        }
-        0x85 | 0x87 | 0x89 => {
-            let m = modrm(c, x);
-            let mn = if op == 0x85 { Mn::Test } else if op == 0x87 { Mn::Xchg } else { Mn::Mov };
-            Insn::op2(mn, o16, rm_g(&m, osz, x), gpr(m.reg, osz))
-        }
-        0x8A => {
-            let m = modrm(c, x);
-            no66(x, Insn::op2(Mn::Mov, 8, g(m.reg, 8, x.rexp), rm_g(&m, 8, x)))
-        }
-        0x8B => {
-            let m = modrm(c, x);
-            Insn::op2(Mn::Mov, o16, gpr(m.reg, osz), rm_g(&m, osz, x))
-        }
+        0x8A | 0x8B => f2(Mn::Mov, sz, K_REG, sz, K_RM, sz).no66_if_byte(),
         0x8D => {
-            let m = modrm(c, x);
-            if m.is_reg {
-                return UNKNOWN;
-            }
-            Insn::op2(Mn::Lea, o16, gpr(m.reg, osz), rm_mem(&m, 0))
+            if rm_is_reg { F_UNKNOWN } else { f2(Mn::Lea, osz, K_REG, osz, K_MEM, 0) }
         }
+        // 90 is NOP only when REX.B = 0 (41 90 is xchg r8, rax); F3 90 is PAUSE (kept visible in rep)
         0x90 => {
-            // 90 is NOP only when REX.B = 0 (41 90 is xchg r8, rax); F3 90 is PAUSE (kept visible in rep)
-            if x.b {
-                return UNKNOWN;
-            }
-            no66(x, Insn::op0(Mn::Nop, 0))
+            if x.b { F_UNKNOWN } else { f0(Mn::Nop, 0).no66() }
         }
-        0x98 => Insn::op0(Mn::Cbw, o16),
-        0x99 => Insn::op0(Mn::Cwd, o16),
-        0xA8 => {
-            let v = c.i8();
-            no66(x, Insn::op2(Mn::Test, 8, gpr(0, 8), Operand::Imm(v)))
+        0x98 => f0(Mn::Cbw, osz),
+        0x99 => f0(Mn::Cwd, osz),
+        0xA8 | 0xA9 => f2(Mn::Test, sz, K_ACC, sz, K_IMM, 0).no66_if_byte(),
+        0xB0..=0xB7 => f2(Mn::Mov, 8, K_OPREG, 8, K_IMM, 0).no66(),
+        0xB8..=0xBF => f2(Mn::Mov, osz, K_OPREG, osz, K_IMM, 0),
+        0xC0 | 0xC1 => f2(shift_mn(ext), sz, K_RM, sz, K_IMMU8, 0).no66_if_byte(),
+        0xD0 | 0xD1 => f2(shift_mn(ext), sz, K_RM, sz, K_ONE, 0).no66_if_byte(),
+        0xD2 | 0xD3 => f2(shift_mn(ext), sz, K_RM, sz, K_CL, 0).no66_if_byte(),
+        0xC3 => f0(Mn::Ret, 0).no66(),
+        0xCC => f0(Mn::Int3, 0).no66(),
+        0xC6 | 0xC7 => {
+            if ext != 0 { F_UNKNOWN } else { f2(Mn::Mov, sz, K_RM, sz, K_IMM, 0).no66_if_byte() }
         }
-        0xA9 => {
-            let v = c.imm_z(osz);
-            Insn::op2(Mn::Test, o16, gpr(0, osz), Operand::Imm(v))
-        }
-        0xB0..=0xB7 => {
-            let v = c.i8();
-            no66(x, Insn::op2(Mn::Mov, 8, g((op & 7) | bbit, 8, x.rexp), Operand::Imm(v)))
-        }
-        0xB8..=0xBF => {
-            let v = if osz == 64 { c.i64() } else { c.imm_z(osz) };
-            Insn::op2(Mn::Mov, o16, gpr((op & 7) | bbit, osz), Operand::Imm(v))
-        }
-        0xC0 | 0xC1 | 0xD0 | 0xD1 | 0xD2 | 0xD3 => {
-            let m = modrm(c, x);
-            let sz = if op & 1 == 0 { 8 } else { osz };
-            let cnt = if op < 0xD0 {
-                Operand::Imm(c.u8() as i64)
-            } else if op < 0xD2 {
-                Operand::Imm(1)
-            } else {
-                CL
-            };
-            let i = Insn::op2(shift_mn(m.reg), sz as u16, rm_g(&m, sz, x), cnt);
-            if sz == 8 { no66(x, i) } else { i }
-        }
-        0xC3 => no66(x, Insn::op0(Mn::Ret, 0)),
-        0xCC => no66(x, Insn::op0(Mn::Int3, 0)),
-        0xC6 => {
-            let m = modrm(c, x);
-            if m.reg & 7 != 0 {
-                return UNKNOWN;
-            }
-            let v = c.i8();
-            no66(x, Insn::op2(Mn::Mov, 8, rm_g(&m, 8, x), Operand::Imm(v)))
-        }
-        0xC7 => {
-            let m = modrm(c, x);
-            if m.reg & 7 != 0 {
-                return UNKNOWN;
-            }
-            let v = c.imm_z(osz);
-            Insn::op2(Mn::Mov, o16, rm_g(&m, osz, x), Operand::Imm(v))
-        }
-        0xE8 => {
-            let d = c.i32();
-            no66(x, Insn::op1(Mn::Call, 0, Operand::Rel(d)))
-        }
-        0xE9 => {
-            let d = c.i32();
-            no66(x, Insn::op1(Mn::Jmp, 0, Operand::Rel(d)))
-        }
-        0xEB => {
-            let d = c.i8() as i32;
-            no66(x, Insn::op1(Mn::Jmp, 0, Operand::Rel(d)))
-        }
-        0xF6 | 0xF7 => {
-            let m = modrm(c, x);
-            let sz = if op == 0xF6 { 8 } else { osz };
-            let rmo = rm_g(&m, sz, x);
-            let i = match m.reg & 7 {
-                0 => {
-                    let v = if sz == 8 { c.i8() } else { c.imm_z(osz) };
-                    Insn::op2(Mn::Test, sz as u16, rmo, Operand::Imm(v))
+        0xE8 => f1(Mn::Call, 0, K_REL, 0).no66(),
+        0xE9 | 0xEB => f1(Mn::Jmp, 0, K_REL, 0).no66(),
+        0xF6 | 0xF7 => match ext {
+            0 => f2(Mn::Test, sz, K_RM, sz, K_IMM, 0).no66_if_byte(),
+            2 => f1(Mn::Not, sz, K_RM, sz).no66_if_byte(),
+            3 => f1(Mn::Neg, sz, K_RM, sz).no66_if_byte(),
+            4 => f1(Mn::Mul, sz, K_RM, sz).no66_if_byte(),
+            5 => f1(Mn::Imul, sz, K_RM, sz).no66_if_byte(),
+            6 => f1(Mn::Div, sz, K_RM, sz).no66_if_byte(),
+            7 => f1(Mn::Idiv, sz, K_RM, sz).no66_if_byte(),
+            _ => F_UNKNOWN,
+        },
+        0xFE | 0xFF => match ext {
+            0 => f1(Mn::Inc, sz, K_RM, sz).no66_if_byte(),
+            1 => f1(Mn::Dec, sz, K_RM, sz).no66_if_byte(),
+            // FF /2 /4 /6: near indirect call / jmp / push: operand size is 64 in 64-bit mode, REX.W not needed
+            2 | 4 | 6 => {
+                if op == 0xFE {
+                    F_UNKNOWN
+                } else {
+                    f1(if ext == 2 { Mn::Call } else if ext == 4 { Mn::Jmp } else { Mn::Push }, 64, K_RM, 64).no66()
                 }
-                2 => Insn::op1(Mn::Not, sz as u16, rmo),
-                3 => Insn::op1(Mn::Neg, sz as u16, rmo),
-                4 => Insn::op1(Mn::Mul, sz as u16, rmo),
-                5 => Insn::op1(Mn::Imul, sz as u16, rmo),
-                6 => Insn::op1(Mn::Div, sz as u16, rmo),
-                7 => Insn::op1(Mn::Idiv, sz as u16, rmo),
-                _ => UNKNOWN,
+            }
+            _ => F_UNKNOWN,
+        },
+        _ => F_UNKNOWN,
+    }
+}
+
+/// integer opcodes of the 0F map
+fn form_map1(x: &Ctx, op: u8, m: &ModRm) -> Form {
+    let osz: u8 = if x.w { 64 } else if x.p66 { 16 } else { 32 };
+    let f3 = x.rep == 0xF3;
+    match op {
+        0x40..=0x4F => f2(Mn::Cmovcc, osz, K_REG, osz, K_RM, osz).cc(op & 15),
+        0x80..=0x8F => f1(Mn::Jcc, 0, K_REL, 0).cc(op & 15).no66(),
+        0x90..=0x9F => f1(Mn::Setcc, 8, K_RM, 8).cc(op & 15).no66(),
+        0xAE => {
+            // register forms of group 15: /5 lfence, /6 mfence, /7 sfence (SDM: 0F AE E8 / F0 / F8)
+            if !m.is_reg || (m.rm & 7) != 0 || x.rep != 0 {
+                F_UNKNOWN
+            } else {
+                match m.reg & 7 {
+                    5 => f0(Mn::Lfence, 0).no66(),
+                    6 => f0(Mn::Mfence, 0).no66(),
+                    7 => f0(Mn::Sfence, 0).no66(),
+                    _ => F_UNKNOWN,
+                }
+            }
+        }
+        0xAF => f2(Mn::Imul, osz, K_REG, osz, K_RM, osz),
+        0xB0 | 0xC0 => f2(if op == 0xB0 { Mn::Cmpxchg } else { Mn::Xadd }, 8, K_RM, 8, K_REG, 8).no66(),
+        0xB1 | 0xC1 => f2(if op == 0xB1 { Mn::Cmpxchg } else { Mn::Xadd }, osz, K_RM, osz, K_REG, osz),
+        0xB6 | 0xB7 | 0xBE | 0xBF => f2(if op < 0xB8 { Mn::Movzx } else { Mn::Movsx }, osz, K_REG, osz, K_RM, if op & 1 == 0 { 8 } else { 16 }),
+        0xB8 => {
+            // F3 0F B8 popcnt (without F3: jmpe, not an x86-64 instruction)
+            if f3 {
+                let mut f = f2(Mn::Popcnt, osz, K_REG, osz, K_RM, osz);
+                f.rep_used = true;
+                f
+            } else {
+                F_UNKNOWN
+            }
+        }
+        0xBC | 0xBD => {
+            let mn = match (op, f3) {
+                (0xBC, true) => Mn::Tzcnt,
+                (0xBC, false) => Mn::Bsf,
+                (_, true) => Mn::Lzcnt,
+                _ => Mn::Bsr,
             };
-            if sz == 8 { no66(x, i) } else { i }
+            let mut f = f2(mn, osz, K_REG, osz, K_RM, osz);
+            f.rep_used = f3;
+            f
         }
-        0xFE => {
-            let m = modrm(c, x);
-            let rmo = rm_g(&m, 8, x);
-            match m.reg & 7 {
-                0 => no66(x, Insn::op1(Mn::Inc, 8, rmo)),
-                1 => no66(x, Insn::op1(Mn::Dec, 8, rmo)),
-                _ => UNKNOWN,
-            }
-        }
-        0xFF => {
-            let m = modrm(c, x);
-            match m.reg & 7 {
-                0 => Insn::op1(Mn::Inc, o16, rm_g(&m, osz, x)),
-                1 => Insn::op1(Mn::Dec, o16, rm_g(&m, osz, x)),
-                // near indirect call / jmp / push: operand size is 64 in 64-bit mode, REX.W not needed
-                2 => no66(x, Insn::op1(Mn::Call, 64, rm_g(&m, 64, x))),
-                4 => no66(x, Insn::op1(Mn::Jmp, 64, rm_g(&m, 64, x))),
-                6 => no66(x, Insn::op1(Mn::Push, 64, rm_g(&m, 64, x))),
-                _ => UNKNOWN,
-            }
-        }
-        _ => UNKNOWN,
-    };
-    with_rep(x, i)
+        _ => F_UNKNOWN,
+    }
 }
 
 /// (opcode 51 / 58..5F except 5A 5B, SIMD prefix) -> mnemonic
@@ -737,250 +820,186 @@ fn sse_arith_mn(op: u8, pp: u8) -> Mn {
         _ => Mn::Unknown,
     }
 }
-/// memory operand size selected by the SIMD prefix: packed 128 (256 with VEX.L), ss 32, sd 64
-fn sse_memsize(x: &Ctx) -> u8 {
-    match x.pp {
+
+/// Shape of an SSE/AVX instruction: which fields are the operands.
+/// 0 = unknown; otherwise  dst <- src  with
+///   1: xmm(reg) <- xmm/m(rm)            two operands (VEX: vvvv must be unused)
+///   2: xmm/m(rm) <- xmm(reg)            two operands
+///   3: xmm(reg) <- [vvvv,] xmm/m(rm)    legacy two / VEX three operands
+///   4: xmm(rm)  <- [vvvv,] xmm(reg)     VEX three operands (register form of the 11 store opcode)
+///   5: xmm(reg) <- [vvvv,] gpr/m(rm)    cvtsi2ss/sd
+///   6: gpr(reg) <- xmm/m(rm)            cvt(t)ss2si / cvt(t)sd2si
+///   7: xmm(reg) <- gpr/m(rm)            movd/movq
+///   8: gpr/m(rm) <- xmm(reg)            movd/movq
+#[derive(Copy, Clone)]
+struct Sse {
+    mn: Mn,
+    shape: u8,
+    msize: u8, // size of a memory (rm) operand
+}
+const SSE_UNKNOWN: Sse = Sse { mn: Mn::Unknown, shape: 0, msize: 0 };
+
+fn sse_table(x: &Ctx, op: u8, rm_is_reg: bool) -> Sse {
+    let pp = x.pp;
+    // memory operand size selected by the SIMD prefix: packed 128, ss 32, sd 64
+    let ms_pp: u8 = match pp {
         2 => 32,
         3 => 64,
-        _ => 128, // a 256-bit access is described by Insn::opsize
+        _ => 128,
+    };
+    let gsz: u8 = if x.w { 64 } else { 32 };
+    let l0 = !(x.vex && x.l); // instruction requires VEX.L = 0
+    match op {
+        0x10 | 0x11 => {
+            let mn = match pp {
+                0 => Mn::Movups,
+                1 => Mn::Movupd,
+                2 => Mn::Movss,
+                _ => Mn::Movsd,
+            };
+            // VMOVSS/VMOVSD xmm1, xmm2, xmm3 (register form) is a three-operand merge
+            let merge = x.vex && pp >= 2 && rm_is_reg;
+            let shape = if op == 0x10 {
+                if merge { 3 } else { 1 }
+            } else if merge {
+                4
+            } else {
+                2
+            };
+            Sse { mn, shape, msize: ms_pp }
+        }
+        0x28 | 0x29 => {
+            let mn = match pp {
+                0 => Mn::Movaps,
+                1 => Mn::Movapd,
+                _ => Mn::Unknown,
+            };
+            Sse { mn, shape: if op == 0x28 { 1 } else { 2 }, msize: 128 }
+        }
+        0x2A => {
+            let mn = match pp {
+                2 => Mn::Cvtsi2ss,
+                3 => Mn::Cvtsi2sd,
+                _ => Mn::Unknown, // cvtpi2ps/pd (MMX) not offered
+            };
+            Sse { mn, shape: 5, msize: gsz }
+        }
+        0x2C | 0x2D => {
+            let mn = match (op, pp) {
+                (0x2C, 2) => Mn::Cvttss2si,
+                (0x2C, 3) => Mn::Cvttsd2si,
+                (0x2D, 2) => Mn::Cvtss2si,
+                (0x2D, 3) => Mn::Cvtsd2si,
+                _ => Mn::Unknown,
+            };
+            Sse { mn, shape: 6, msize: ms_pp }
+        }
+        0x2E | 0x2F => {
+            let mn = match (op, pp) {
+                (0x2E, 0) => Mn::Ucomiss,
+                (0x2E, 1) => Mn::Ucomisd,
+                (0x2F, 0) => Mn::Comiss,
+                (0x2F, 1) => Mn::Comisd,
+                _ => Mn::Unknown,
+            };
+            Sse { mn, shape: 1, msize: if pp == 0 { 32 } else { 64 } }
+        }
+        0x51 | 0x58 | 0x59 | 0x5C..=0x5F => Sse { mn: sse_arith_mn(op, pp), shape: if op == 0x51 && pp < 2 { 1 } else { 3 }, msize: ms_pp },
+        0x54..=0x57 => {
+            let mn = match (op, pp) {
+                (0x54, 0) => Mn::Andps,
+                (0x54, 1) => Mn::Andpd,
+                (0x55, 0) => Mn::Andnps,
+                (0x55, 1) => Mn::Andnpd,
+                (0x56, 0) => Mn::Orps,
+                (0x56, 1) => Mn::Orpd,
+                (0x57, 0) => Mn::Xorps,
+                (0x57, 1) => Mn::Xorpd,
+                _ => Mn::Unknown,
+            };
+            Sse { mn, shape: 3, msize: 128 }
+        }
+        0x5A => {
+            let mn = match pp {
+                2 => Mn::Cvtss2sd,
+                3 => Mn::Cvtsd2ss,
+                _ => Mn::Unknown, // cvtps2pd / cvtpd2ps not offered
+            };
+            Sse { mn, shape: 3, msize: ms_pp }
+        }
+        0x6E => {
+            if pp == 1 && l0 { Sse { mn: if x.w { Mn::Movq } else { Mn::Movd }, shape: 7, msize: gsz } } else { SSE_UNKNOWN }
+        }
+        0x7E => {
+            if pp == 1 && l0 {
+                Sse { mn: if x.w { Mn::Movq } else { Mn::Movd }, shape: 8, msize: gsz }
+            } else if pp == 2 && l0 {
+                Sse { mn: Mn::Movq, shape: 1, msize: 64 } // F3 0F 7E: movq xmm, xmm/m64
+            } else {
+                SSE_UNKNOWN
+            }
+        }
+        0xD6 => {
+            if pp == 1 && l0 { Sse { mn: Mn::Movq, shape: 2, msize: 64 } } else { SSE_UNKNOWN }
+        }
+        0xEF => {
+            if pp == 1 { Sse { mn: Mn::Pxor, shape: 3, msize: 128 } } else { SSE_UNKNOWN }
+        }
+        _ => SSE_UNKNOWN,
     }
 }
 
-/// two-operand SSE form `op a, b`; the VEX form must not use vvvv
-fn sse2(x: &Ctx, mn: Mn, a: Operand, b: Operand) -> Insn {
-    if x.vex && x.v != 0 {
-        return UNKNOWN;
-    }
-    Insn::op2(mn, sse_opsize(x), a, b)
-}
-/// destructive two-operand legacy form `op dst, src` / non-destructive VEX form `op dst, vvvv, src`
-fn sse3(x: &Ctx, mn: Mn, dst: Operand, src: Operand) -> Insn {
-    if x.vex { Insn::op3(mn, sse_opsize(x), dst, Operand::Xmm(x.v), src) } else { Insn::op2(mn, sse_opsize(x), dst, src) }
-}
 fn sse_opsize(x: &Ctx) -> u16 {
     if x.vex && x.l { 256 } else { 128 }
 }
 
-fn decode_map1(c: &mut Cur, x: &Ctx, op: u8) -> Insn {
-    let osz: u8 = if x.w { 64 } else if x.p66 { 16 } else { 32 };
-    let o16 = osz as u16;
-    let gsz: u8 = if x.w { 64 } else { 32 };
-    // ---- SSE / AVX opcodes: the SIMD prefix selects the instruction ----
-    let is_sse = match op {
-        0x10 | 0x11 | 0x28 | 0x29 | 0x2A | 0x2C | 0x2D | 0x2E | 0x2F | 0x51 | 0x54..=0x5A | 0x5C..=0x5F | 0x6E | 0x7E | 0xD6 | 0xEF => true,
-        _ => false,
-    };
-    if is_sse {
-        if x.sse_bad {
-            return UNKNOWN;
-        }
-        let m = modrm(c, x);
-        let xr = Operand::Xmm(m.reg);
-        let pp = x.pp;
-        return match op {
-            0x10 | 0x11 => {
-                let mn = match pp {
-                    0 => Mn::Movups,
-                    1 => Mn::Movupd,
-                    2 => Mn::Movss,
-                    _ => Mn::Movsd,
-                };
-                let rmo = rm_x(&m, sse_memsize(x));
-                if x.vex && pp >= 2 && m.is_reg {
-                    // VMOVSS/VMOVSD xmm1, xmm2, xmm3: merge form, three operands
-                    if op == 0x10 { Insn::op3(mn, sse_opsize(x), xr, Operand::Xmm(x.v), rmo) } else { Insn::op3(mn, sse_opsize(x), rmo, Operand::Xmm(x.v), xr) }
-                } else if op == 0x10 {
-                    sse2(x, mn, xr, rmo)
-                } else {
-                    sse2(x, mn, rmo, xr)
-                }
-            }
-            0x28 | 0x29 => {
-                let mn = match pp {
-                    0 => Mn::Movaps,
-                    1 => Mn::Movapd,
-                    _ => return UNKNOWN,
-                };
-                let rmo = rm_x(&m, 128);
-                if op == 0x28 { sse2(x, mn, xr, rmo) } else { sse2(x, mn, rmo, xr) }
-            }
-            0x2A => {
-                let mn = match pp {
-                    2 => Mn::Cvtsi2ss,
-                    3 => Mn::Cvtsi2sd,
-                    _ => return UNKNOWN, // cvtpi2ps/pd (MMX) not offered
-                };
-                sse3(x, mn, xr, rm_g(&m, gsz, x))
-            }
-            0x2C | 0x2D => {
-                let mn = match (op, pp) {
-                    (0x2C, 2) => Mn::Cvttss2si,
-                    (0x2C, 3) => Mn::Cvttsd2si,
-                    (0x2D, 2) => Mn::Cvtss2si,
-                    (0x2D, 3) => Mn::Cvtsd2si,
-                    _ => return UNKNOWN,
-                };
-                sse2(x, mn, gpr(m.reg, gsz), rm_x(&m, sse_memsize(x)))
-            }
-            0x2E | 0x2F => {
-                let (mn, ms) = match (op, pp) {
-                    (0x2E, 0) => (Mn::Ucomiss, 32),
-                    (0x2E, 1) => (Mn::Ucomisd, 64),
-                    (0x2F, 0) => (Mn::Comiss, 32),
-                    (0x2F, 1) => (Mn::Comisd, 64),
-                    _ => return UNKNOWN,
-                };
-                sse2(x, mn, xr, rm_x(&m, ms))
-            }
-            0x51 | 0x58 | 0x59 | 0x5C..=0x5F => {
-                let mn = sse_arith_mn(op, pp);
-                let rmo = rm_x(&m, sse_memsize(x));
-                if op == 0x51 && pp < 2 { sse2(x, mn, xr, rmo) } else { sse3(x, mn, xr, rmo) }
-            }
-            0x54..=0x57 => {
-                let mn = match (op, pp) {
-                    (0x54, 0) => Mn::Andps,
-                    (0x54, 1) => Mn::Andpd,
-                    (0x55, 0) => Mn::Andnps,
-                    (0x55, 1) => Mn::Andnpd,
-                    (0x56, 0) => Mn::Orps,
-                    (0x56, 1) => Mn::Orpd,
-                    (0x57, 0) => Mn::Xorps,
-                    (0x57, 1) => Mn::Xorpd,
-                    _ => return UNKNOWN,
-                };
-                sse3(x, mn, xr, rm_x(&m, 128))
-            }
-            0x5A => match pp {
-                2 => sse3(x, Mn::Cvtss2sd, xr, rm_x(&m, 32)),
-                3 => sse3(x, Mn::Cvtsd2ss, xr, rm_x(&m, 64)),
-                _ => UNKNOWN, // cvtps2pd / cvtpd2ps not offered
-            },
-            0x6E => {
-                if pp != 1 || (x.vex && x.l) {
-                    return UNKNOWN;
-                }
-                sse2(x, if x.w { Mn::Movq } else { Mn::Movd }, xr, rm_g(&m, gsz, x))
-            }
-            0x7E => {
-                if x.vex && x.l {
-                    return UNKNOWN;
-                }
-                match pp {
-                    1 => sse2(x, if x.w { Mn::Movq } else { Mn::Movd }, rm_g(&m, gsz, x), xr),
-                    2 => sse2(x, Mn::Movq, xr, rm_x(&m, 64)),
-                    _ => UNKNOWN,
-                }
-            }
-            0xD6 => {
-                if pp != 1 || (x.vex && x.l) {
-                    return UNKNOWN;
-                }
-                sse2(x, Mn::Movq, rm_x(&m, 64), xr)
-            }
-            _ => {
-                // 0xEF
-                if pp != 1 {
-                    return UNKNOWN;
-                }
-                sse3(x, Mn::Pxor, xr, rm_x(&m, 128))
-            }
-        };
-    }
-    // ---- integer opcodes of the 0F map: no VEX form ----
-    if x.vex {
+/// build the Insn of an SSE/AVX instruction from its table entry
+fn sse_build(x: &Ctx, t: Sse, m: &ModRm, trailing_imm: Operand) -> Insn {
+    if t.mn == Mn::Unknown || t.shape == 0 || x.sse_bad {
         return UNKNOWN;
     }
-    let mut rep_used = false;
-    let i = match op {
-        0x40..=0x4F => {
-            let m = modrm(c, x);
-            Insn::op2(Mn::Cmovcc, o16, gpr(m.reg, osz), rm_g(&m, osz, x)).with_cc(op & 15)
-        }
-        0x80..=0x8F => {
-            let d = c.i32();
-            no66(x, Insn::op1(Mn::Jcc, 0, Operand::Rel(d)).with_cc(op & 15))
-        }
-        0x90..=0x9F => {
-            let m = modrm(c, x);
-            no66(x, Insn::op1(Mn::Setcc, 8, rm_g(&m, 8, x)).with_cc(op & 15))
-        }
-        0xAE => {
-            let b = c.u8();
-            let mn = match b {
-                0xE8 => Mn::Lfence,
-                0xF0 => Mn::Mfence,
-                0xF8 => Mn::Sfence,
-                _ => return UNKNOWN,
-            };
-            if x.rep != 0 {
-                return UNKNOWN;
-            }
-            no66(x, Insn::op0(mn, 0))
-        }
-        0xAF => {
-            let m = modrm(c, x);
-            Insn::op2(Mn::Imul, o16, gpr(m.reg, osz), rm_g(&m, osz, x))
-        }
-        0xB0 | 0xC0 => {
-            let m = modrm(c, x);
-            no66(x, Insn::op2(if op == 0xB0 { Mn::Cmpxchg } else { Mn::Xadd }, 8, rm_g(&m, 8, x), g(m.reg, 8, x.rexp)))
-        }
-        0xB1 | 0xC1 => {
-            let m = modrm(c, x);
-            Insn::op2(if op == 0xB1 { Mn::Cmpxchg } else { Mn::Xadd }, o16, rm_g(&m, osz, x), gpr(m.reg, osz))
-        }
-        0xB6 | 0xB7 | 0xBE | 0xBF => {
-            let m = modrm(c, x);
-            let ssz = if op & 1 == 0 { 8 } else { 16 };
-            Insn::op2(if op < 0xB8 { Mn::Movzx } else { Mn::Movsx }, o16, gpr(m.reg, osz), rm_g(&m, ssz, x))
-        }
-        0xB8 => {
-            if x.rep != 0xF3 {
-                return UNKNOWN;
-            }
-            rep_used = true;
-            let m = modrm(c, x);
-            Insn::op2(Mn::Popcnt, o16, gpr(m.reg, osz), rm_g(&m, osz, x))
-        }
-        0xBC | 0xBD => {
-            let m = modrm(c, x);
-            let mn = if x.rep == 0xF3 {
-                rep_used = true;
-                if op == 0xBC { Mn::Tzcnt } else { Mn::Lzcnt }
-            } else if op == 0xBC {
-                Mn::Bsf
-            } else {
-                Mn::Bsr
-            };
-            Insn::op2(mn, o16, gpr(m.reg, osz), rm_g(&m, osz, x))
-        }
-        _ => UNKNOWN,
+    let osz = sse_opsize(x);
+    let xr = Operand::Xmm(m.reg);
+    let xrm = rm_x(m, t.msize);
+    let grm = rm_g(m, t.msize, x);
+    let gr = gpr(m.reg, if x.w { 64 } else { 32 });
+    let (dst, src, three) = match t.shape {
+        1 => (xr, xrm, false),
+        2 => (xrm, xr, false),
+        3 => (xr, xrm, true),
+        4 => (xrm, xr, true),
+        5 => (xr, grm, true),
+        6 => (gr, xrm, false),
+        7 => (xr, grm, false),
+        _ => (grm, xr, false),
     };
-    if rep_used { i } else { with_rep(x, i) }
+    let has_imm = match trailing_imm {
+        Operand::None => false,
+        _ => true,
+    };
+    if x.vex && three {
+        // non-destructive VEX form: dst, vvvv, src
+        let v = Operand::Xmm(x.v);
+        if has_imm { Insn::op4(t.mn, osz, dst, v, src, trailing_imm) } else { Insn::op3(t.mn, osz, dst, v, src) }
+    } else {
+        if x.vex && x.v != 0 {
+            return UNKNOWN; // VEX.vvvv must be 1111b when it encodes no operand
+        }
+        if has_imm { Insn::op3(t.mn, osz, dst, src, trailing_imm) } else { Insn::op2(t.mn, osz, dst, src) }
+    }
 }
 
-fn decode_map3(c: &mut Cur, x: &Ctx, op: u8) -> Insn {
-    if x.sse_bad {
+/// 0F 3A opcode map: roundss / roundsd (66 0F 3A 0A/0B /r ib)
+fn decode_map3(x: &Ctx, op: u8, m: &ModRm, imm: i64) -> Insn {
+    if x.pp != 1 {
         return UNKNOWN;
     }
-    match op {
-        0x0A | 0x0B => {
-            if x.pp != 1 {
-                return UNKNOWN;
-            }
-            let m = modrm(c, x);
-            let (mn, ms) = if op == 0x0A { (Mn::Roundss, 32) } else { (Mn::Roundsd, 64) };
-            let rmo = rm_x(&m, ms);
-            let mode = Operand::Imm(c.u8() as i64);
-            if x.vex {
-                Insn::op4(mn, sse_opsize(x), Operand::Xmm(m.reg), Operand::Xmm(x.v), rmo, mode)
-            } else {
-                Insn::op3(mn, 128, Operand::Xmm(m.reg), rmo, mode)
-            }
-        }
-        _ => UNKNOWN,
-    }
+    let t = match op {
+        0x0A => Sse { mn: Mn::Roundss, shape: 3, msize: 32 },
+        0x0B => Sse { mn: Mn::Roundsd, shape: 3, msize: 64 },
+        _ => SSE_UNKNOWN,
+    };
+    sse_build(x, t, m, Operand::Imm(imm as u8 as i64))
 }
 
 // ------------------------------------------------------------------------------------------------
